@@ -181,6 +181,45 @@ class Defined:
 # symbolic evaluation of one handler, and of the printing of the IR object it builds
 # =============================================================================
 EXPR_METHODS = ("visit_binary_expression", "visit_cond_expression", "visit_unary_expression", "visit_cast")
+TEXT_METHODS = EXPR_METHODS + ("visit_constant",)     # Writer methods that are evaluated (the others are summarised by their arguments)
+
+_JAVA_OPERATORS = sorted([">>>=", "<<=", ">>=", ">>>", "...", "->", "::", "++", "--", "&&", "||", "==", "!=", "<=", ">=", "+=", "-=", "*=",
+                          "/=", "&=", "|=", "^=", "%=", "<<", ">>", "//", "/*", "*/"], key=len, reverse=True)
+
+
+def java_lex(text):
+    """Java tokens of `text` by longest match (JLS 3.2): identifiers/keywords, numeric literals, operators, separators"""
+    out = []
+    i = 0
+    n = len(text)
+    while i < n:
+        c = text[i]
+        if c.isspace():
+            i += 1
+            continue
+        if c.isalpha() or c in "_$":
+            j = i
+            while j < n and (text[j].isalnum() or text[j] in "_$"):
+                j += 1
+            out.append(text[i:j])
+            i = j
+            continue
+        if c.isdigit() or (c == "." and i + 1 < n and text[i + 1].isdigit()):
+            j = i
+            while j < n and (text[j].isalnum() or text[j] in "._" or (text[j] in "+-" and text[j - 1] in "eEpP" and not text[i:i + 2].lower() == "0x")):
+                j += 1
+            out.append(text[i:j])
+            i = j
+            continue
+        for op in _JAVA_OPERATORS:
+            if text.startswith(op, i):
+                out.append(op)
+                i += len(op)
+                break
+        else:
+            out.append(c)
+            i += 1
+    return out
 
 
 class HandlerEval:
@@ -197,7 +236,20 @@ class HandlerEval:
 
     def make(self, choices):
         return Evaluator(self.repo, self.folder, {OPC}, choices, shared=self.shared,
-                         hooks={"construct": self._on_construct, "visitor": self._on_visitor, "obj_method": self._on_obj_method})
+                         hooks={"construct": self._on_construct, "visitor": self._on_visitor, "obj_method": self._on_obj_method,
+                                "constructed": self._on_constructed})
+
+    @staticmethod
+    def _on_constructed(ev, obj, node, frame):
+        # the type of a register variable is run-time data (set by the constructors of the expressions that use it and by
+        # propagation): the letter the opcode fixes for that operand when it does, otherwise unknown -- never "None"
+        if obj.cls.is_subclass_of("Variable") and obj.state.get("type", 0) is None and obj.ctor_args:
+            reg = obj.ctor_args[0]
+            known = getattr(ev, "regtypes", None) or {}
+            if isinstance(reg, Field) and reg.name in known:
+                obj.state["type"] = known[reg.name]
+            else:
+                obj.state["type"] = Opq("regtype", reg)
 
     # ---- hooks ---------------------------------------------------------------------------
     @staticmethod
@@ -217,7 +269,7 @@ class HandlerEval:
 
     def _on_visitor(self, ev, name, args, kwargs, node, fr):
         """a call on the visitor / Writer-self sentinel"""
-        if name in EXPR_METHODS:
+        if name in TEXT_METHODS:
             f = self.writer_method(name)
             saved = ev.tokens
             ev.tokens = []
@@ -252,7 +304,7 @@ class HandlerEval:
         return ev.call_func(m, args, kwargs, self_obj=obj, cls_ctx=m.cls)
 
     # ---- evaluation ----------------------------------------------------------------------------
-    def paths(self, hv, scenario=None):
+    def paths(self, hv, scenario=None, regtypes=None):
         """every path of handler + printing.  -> list of (ev, result, signature | None) ; result may be PathRaise.
         scenario = (field name, concrete int, type letter): the register operand `field` of the value expression has been
         replaced by that constant (what constant propagation does) before printing."""
@@ -262,6 +314,8 @@ class HandlerEval:
             raise AnalysisError("handler %s takes no instruction parameter" % handler.qualname)
 
         def run(ev):
+            ev.regtypes = regtypes or {}
+            ev.lex_problems = []
             args = [ev.INS] + [Opq("param", p) for p in params[1:]]
             r = ev.apply(hv, args, {}, handler.node, Frame(handler.module, handler, {}))
             ev.phase = "visit"
@@ -306,7 +360,7 @@ class HandlerEval:
                 if not v.ctor_args:
                     raise AnalysisError("Variable constructed without a register")
                 return ("reg",) + (self.operand(v.ctor_args[0]),)
-            em = self.visit(ev, v)
+            em = self.cached_visit(ev, v)
             return self.neutral_emit(ev, em, v)
         if isinstance(v, Emit):
             return self.neutral_emit(ev, v, None)
@@ -327,6 +381,45 @@ class HandlerEval:
         if isinstance(x, int):
             return ("int", x)
         return ("?", show(x)[:80])
+
+    def operand_text(self, ev, v):
+        """the text the Writer prints for a leaf operand, when it is known: an identifier for a register variable, the
+        decimal literal for a constant with a concrete value"""
+        if isinstance(v, Obj) and v.cls.is_subclass_of("Variable"):
+            return "v0"
+        if isinstance(v, Obj) and v.cls is self.const_cls:
+            em = self.cached_visit(ev, v)
+            if em.method == "visit_constant" and len(em.args) == 1 and isinstance(em.args[0], int) and not isinstance(em.args[0], bool):
+                toks = getattr(em, "tokens", None)
+                if toks and all(k == "text" and isinstance(t, str) for k, t in toks):
+                    return "".join(t for k, t in toks)
+        return None
+
+    def lex_check(self, ev, em, f):
+        """the text of an expression must lex (Java, longest match) into the tokens of its pieces: an operator that merges
+        with the sign of a literal (`--5`) or with a neighbouring word changes the program"""
+        pieces = []
+        for kind, v in em.tokens:
+            if kind == "text":
+                if not isinstance(v, str):
+                    return
+                pieces.append(v)
+            else:
+                t = self.operand_text(ev, v)
+                if t is None:
+                    return
+                pieces.append(t)
+        whole = java_lex("".join(pieces))
+        apart = [tok for p in pieces for tok in java_lex(p)]
+        if whole != apart:
+            ev.lex_problems.append((f, "".join(pieces), whole, apart))
+
+    def cached_visit(self, ev, obj):
+        em = getattr(obj, "_emit", None)
+        if em is None:
+            em = self.visit(ev, obj)
+            obj._emit = em
+        return em
 
     @staticmethod
     def _split_tokens(m, toks, n_operands):
@@ -395,9 +488,13 @@ class HandlerEval:
             if pre.strip("(") or post.strip(")") or len(pre) != len(post) or not mid:
                 raise AnalysisError("Writer.%s prints %r <operand> %r <operand> %r: not `left operator right`" % (m, pre, mid, post))
             return ("binary" if m == "visit_binary_expression" else "cond", mid, N(ops[0]), N(ops[1]))
+        if m in EXPR_METHODS:
+            self.lex_check(ev, em, f)
         if m in ("visit_unary_expression", "visit_cast"):
             texts, ops = self._split_tokens(m, em.tokens, 1)
             pre, post = texts
+            if not pre and not post:
+                return N(ops[0])          # only the operand is printed
             if post.strip(")") or not pre:
                 raise AnalysisError("Writer.%s prints %r <operand> %r: not a prefix operator" % (m, pre, post))
             if post and pre.startswith("("):
@@ -636,8 +733,13 @@ def core(repo, sink, only_ops=None):
         sink.analysed(handler)
         sink.count("handlers")
         # ---- evaluate every path -----------------------------------------------------
-        paths3 = he.paths(hv)
+        regtypes = java_ops.REGTYPE.get(op) or {}
+        paths3 = he.paths(hv, regtypes=regtypes)
         paths = [(ev, r) for ev, r, sg in paths3]
+        for ev, r, sg in paths3:
+            for fn in ev.trace:
+                if "<" not in fn.qualname and "(" not in fn.qualname and fn.module.functions.get(fn.qualname) is fn:
+                    sink.analysed(fn)
         sink.count("paths", len(paths))
         ok_paths = [(ev, r, sg) for ev, r, sg in paths3 if not isinstance(r, PathRaise)]
         if not ok_paths:
@@ -723,6 +825,10 @@ def core(repo, sink, only_ops=None):
         sink.count("signatures")
         for s, r, ev, chain in sigs:
             ok = same_sig(s, exp)
+            report_lexing(sink, ev, op, name, "")
+            if not ok and any(_mentions_regtype(t) for t, c in ev.conds[getattr(ev, "n_build_conds", 0):]):
+                raise AnalysisError("%s: the text printed for opcode 0x%02x (%s) depends on the type of a register that the opcode "
+                                    "does not fix (%s)" % (handler.qualname, op, name, " and ".join("%s is %s" % (show(t), c) for t, c in ev.conds)))
             if not ok and _has_unknown(s) and same_sig(_wild(s, exp), exp):
                 raise AnalysisError("%s builds `%s` for opcode 0x%02x (%s): an operand expression outside the analysable fragment"
                                     % (handler.qualname, render(s), op, name))
@@ -757,7 +863,7 @@ def core(repo, sink, only_ops=None):
                            detail="type letter %s" % show(gt))
         # ---- the same expression after constant propagation replaced a register operand -------------
         if exp is not None and all(same_sig(x[0], exp) for x in sigs):
-            scenario_checks(he, sink, op, name, hv, exp, java_ops.TYPE.get(op), ok_paths)
+            scenario_checks(he, sink, op, name, hv, exp, java_ops.TYPE.get(op), ok_paths, regtypes)
     # a shared builder / IR class / Writer method through which no translation comes out literally right and at
     # least two come out wrong is itself (or something all its users share is) the broken construct
     flagged = {k: u for k, u in users.items() if len(u[2]) >= 2 and u[3] == 0}
@@ -834,9 +940,11 @@ def _ints(expr):
 def judge_propagated(exp_val, got_val, letter, c):
     """-> ('ok' | 'bad' | 'unknown', reason).  'bad' only when a difference is positively established."""
     w = 32 if letter == "I" else 64
+    kind = exp_val[0]
+    if kind == "unary":
+        return judge_unary(exp_val, got_val, letter, c)
     if not (isinstance(got_val, tuple) and got_val and got_val[0] == exp_val[0] and len(got_val) == len(exp_val)):
         return "unknown", "printed as another kind of expression"
-    kind = exp_val[0]
     g = (got_val[0], got_val[1], unconst(got_val[2]), unconst(got_val[3]))
     e = exp_val
     if kind == "cond":
@@ -888,14 +996,62 @@ def _abstract_c(sig, c):
     return sig
 
 
-def scenario_checks(he, sink, op, name, hv, exp, letter, base_paths):
+def judge_unary(exp_val, got_val, letter, c):
+    """`tok c` (neg / not of a constant)"""
+    w = 32 if letter == "I" else 64
+    tok = exp_val[1]
+    want = (-c if tok == "-" else ~c) if tok in ("-", "~") else None
+    g = unconst(got_val)
+    if isinstance(g, tuple) and len(g) == 3 and g[0] == "unary":
+        v = unconst(g[2])
+        if g[1] == tok and v == ("int", c):
+            return "ok", ""
+        if isinstance(v, tuple) and v[0] == "int" and g[1] in ("-", "~") and want is not None:
+            got = -v[1] if g[1] == "-" else ~v[1]
+            if (got - want) % (2 ** w) != 0:
+                return "bad", "it computes %d instead of %d (mod 2^%d)" % (got, want, w)
+            if printable_int_literal(c) and not printable_int_literal(v[1]):
+                return "bad", "the literal %d is printed, which javac rejects (integer number too large)" % v[1]
+            return "ok", ""
+        return "unknown", "operator %r / operand %s" % (g[1], render(v))
+    if isinstance(g, tuple) and len(g) == 2 and g[0] == "int" and want is not None:
+        # folded to a literal
+        if (g[1] - want) % (2 ** w) != 0:
+            return "bad", "the folded literal %d is not %s%d = %d (mod 2^%d)" % (g[1], tok, c, want, w)
+        if printable_int_literal(c) and not printable_int_literal(g[1]):
+            return "bad", "the folded literal %d is rejected by javac (integer number too large)" % g[1]
+        return "ok", ""
+    return "unknown", "printed as another kind of expression"
+
+
+def report_lexing(sink, ev, op, name, where):
+    for f, text, whole, apart in getattr(ev, "lex_problems", []):
+        sink.check("java-lexing", "slot 0x%02x %s%s" % (op, name, where), False, f,
+                   "%s lexes as %s" % (_squash_digits(text), " ".join(_squash_digits(t) for t in whole)),
+                   "opcode 0x%02x (%s)%s is printed as `%s`, which javac reads as the tokens %s, not %s (longest match: the operator "
+                   "merges with what follows)" % (op, name, where, text, whole, apart), node=f.node)
+
+
+def _squash_digits(t):
+    """finding keys do not depend on the representative constant"""
+    import re as _re
+    return _re.sub(r"\d+", "N", t)
+
+
+def scenario_checks(he, sink, op, name, hv, exp, letter, base_paths, regtypes=None):
     handler = hv.func
     if exp is None:
         return
     val = exp[2] if exp[0] == "assign" else exp
-    if not (isinstance(val, tuple) and val[0] in ("binary", "cond") and val[2][0] == "reg" and val[3][0] == "reg"):
+    if not isinstance(val, tuple):
         return
-    if val[0] == "binary" and letter not in ("I", "J"):
+    if val[0] in ("binary", "cond") and val[2][0] == "reg" and val[3][0] == "reg":
+        regs = sorted({val[2][1], val[3][1]})
+    elif val[0] == "unary" and val[2][0] == "reg":
+        regs = [val[2][1]]
+    else:
+        return
+    if val[0] in ("binary", "unary") and letter not in ("I", "J"):
         return
     letter = letter or "I"
     # integers the printing code compares with (functions entered after the handler returned)
@@ -909,12 +1065,17 @@ def scenario_checks(he, sink, op, name, hv, exp, letter, base_paths):
         for n in ast.walk(fn.node):
             if isinstance(n, ast.Constant) and isinstance(n.value, int) and not isinstance(n.value, bool) and abs(n.value) > 2:
                 code_ints.add(n.value)
-    for fld in sorted({val[2][1], val[3][1]}):
-        for c in representative_values(letter, code_ints):
-            exp_val = (val[0], val[1], _subst(val[2], fld, c), _subst(val[3], fld, c))
-            for ev, r, sg in he.paths(hv, (fld, c, letter)):
+    for fld in regs:
+        # the constant has the type the opcode gives that operand (a shift distance is an int even in a long shift)
+        cletter = (regtypes or {}).get(fld, letter)
+        if cletter not in ("I", "J"):
+            cletter = letter
+        for c in representative_values(cletter, code_ints):
+            exp_val = _subst(val, fld, c)
+            for ev, r, sg in he.paths(hv, (fld, c, cletter), regtypes):
                 if isinstance(r, PathRaise):
                     continue
+                report_lexing(sink, ev, op, name, " with v%s = %d" % (fld, c))
                 got = canon(sg)
                 got_val = got[2] if (exp[0] == "assign" and isinstance(got, tuple) and len(got) == 3 and got[0] == "assign") else got
                 if exp[0] == "assign" and got_val is got:
@@ -945,6 +1106,16 @@ def _wild(got, exp):
         if isinstance(exp, tuple) and len(exp) == len(got):
             return tuple(_wild(g, e) for g, e in zip(got, exp))
     return got
+
+
+def _mentions_regtype(term, _depth=0):
+    if isinstance(term, Opq):
+        if term.op == "regtype":
+            return True
+        return _depth < 12 and any(_mentions_regtype(a, _depth + 1) for a in term.args)
+    if isinstance(term, (tuple, list)):
+        return _depth < 12 and any(_mentions_regtype(a, _depth + 1) for a in term)
+    return False
 
 
 def _has_unknown(sig):
@@ -1260,7 +1431,48 @@ def mutants():
     out.append(("dispatcher passes move-result (0x0a) two arguments", BBLOCKS, m_dispatch))
     out.append(("Writer.visit_cond_expression moves a constant to the right with a wrong mirror of '>='", WRITER, _swap_conds(">=", "<")))
     out.append(("BinaryExpression.visit folds the sign of every negative constant into the operator", INSTR, _fold_sign("< 0")))
+    out.append(("Writer.visit_unary_expression prints the operator without the blank", WRITER, _unary_blank(False)))
+    out.append(("Writer.visit_cast prints a widening cast as the bare operand", WRITER, _cast_elide(True)))
     return out
+
+
+def _unary_blank(keep_for_constants):
+    def t(tree):
+        f = _method(tree, "Writer", "visit_unary_expression")
+        if f is None or len(f.args.args) != 3:
+            return False
+        op, arg = [x.arg for x in f.args.args[1:]]
+        for i, st in enumerate(f.body):
+            hit = [n for n in ast.walk(st) if isinstance(n, ast.Constant) and n.value == "(%s "]
+            if hit:
+                if keep_for_constants:
+                    alt = copy.deepcopy(st)
+                    for n in ast.walk(alt):
+                        if isinstance(n, ast.Constant) and n.value == "(%s ":
+                            n.value = "(%s"
+                    f.body[i] = ast.If(test=ast.parse("isinstance(%s, Constant)" % arg, mode="eval").body, body=[st], orelse=[alt])
+                else:
+                    hit[0].value = "(%s"
+                return True
+        return False
+    return t
+
+
+def _cast_elide(widening):
+    def t(tree):
+        f = _method(tree, "Writer", "visit_cast")
+        if f is None or len(f.args.args) != 3:
+            return False
+        op, arg = [x.arg for x in f.args.args[1:]]
+        if widening:
+            src = ("if {'B': 0, 'S': 0, 'C': 0, 'I': 1, 'J': 2, 'F': 3, 'D': 4}.get(str(%s.get_type()), 9) < "
+                   "{'(int)': 1, '(long)': 2, '(float)': 3, '(double)': 4}.get(%s, -1):\n    return %s.visit(self)\n" % (arg, op, arg))
+        else:
+            src = ("if {'(int)': 'I', '(long)': 'J', '(float)': 'F', '(double)': 'D'}.get(%s) == str(%s.get_type()):\n"
+                   "    return %s.visit(self)\n" % (op, arg, arg))
+        f.body.insert(0, ast.parse(src).body[0])
+        return True
+    return t
 
 
 def _swap_conds(key, value):
@@ -1383,6 +1595,8 @@ def benign():
     out.append(("Writer.visit_cond_expression moves a constant to the right with the mirrored operator", WRITER, _swap_conds(">=", "<=")))
     out.append(("BinaryExpression.visit folds the sign of a negative constant unless it is the minimum value", INSTR,
                 _fold_sign("-0x80000000 < arg2.get_int_value() < 0")))
+    out.append(("Writer.visit_unary_expression drops the blank except in front of a literal", WRITER, _unary_blank(True)))
+    out.append(("Writer.visit_cast drops a cast to the type the operand already has", WRITER, _cast_elide(False)))
     return out
 
 
@@ -1437,6 +1651,6 @@ def thorough(ctx):
         raise AnalysisError("rule lost its teeth: surviving mutants: %s" % "; ".join(survivors))
     if noisy:
         raise AnalysisError("rule fires on behaviour-preserving edits: %s" % "; ".join(noisy))
-    if total < 20 or btotal < 6:
-        raise AnalysisError("only %d mutation operators and %d benign edits apply to this tree (need >= 20 / 6): "
+    if total < 22 or btotal < 8:
+        raise AnalysisError("only %d mutation operators and %d benign edits apply to this tree (need >= 22 / 8): "
                             "the mutation set no longer matches the code" % (total, btotal))
